@@ -4,6 +4,7 @@ CONSTANTS
   FixFinal = TRUE
   FixSpillMin = TRUE
   FixLeftId = TRUE
+  FixEmptyMerge = TRUE
   ShapeSet = "three"
   Sizes = {3, 7, 10}
   Spills = {3, 6}
